@@ -102,6 +102,13 @@ CHECKS = {
                      'guarded divisions, phi = x left / 1-x right, each tap added once to an accumulator starting at EQUILIBRIUM, coefficients free of frame data (linearity), tap count <= idx+1 in all three '
                      'branches. The 1e-12 / 1 % numeric statements are NOT decided (paper).',
                 note=TB + '; amplitude abstraction; rounding ignored.'),
+    'C03': dict(level='other', ref='DESIGN.md §5 C03',
+                technique='item-table rules (impl Sample / impl Frame rows, evaluated and generic associated constants) + path summaries of provided methods, map/zip_map closures and from_samples',
+                text='14 impl Sample rows (Signed/Float companions, EQUILIBRIUM = image of amplitude 0, no provided method overridden); provided add_amp/mul_amp are to_sample(signed + amp) / '
+                     'to_sample(float * amp); 15 impl Frame: CHANNELS = N of NChannels<N>, single NumChannels implementor; map/zip_map apply the user function once to channel idx of each operand '
+                     '(idx = from_fn parameter, so every channel_unchecked index is < N); defaults and the 14 mono overrides agree; array_from_iter fill/cleanup step function; channel iteration and indexing. '
+                     'The numeric identities follow with C01/C02 (paper).',
+                note=TB + '; core::array::from_fn / array map are element-wise in order.'),
 }
 
 NOT_YET = 'check not implemented yet in this revision of /verif (see DESIGN.md §10 build order)'
